@@ -480,6 +480,8 @@ def instantiate_external(ex, name, args, kwargs, node):
             return ex.alloc(DictCell({}))
         if len(args) == 1 and not kwargs:
             a0 = ex.res(args[0])
+            if isinstance(a0, VPtr) and isinstance(ex.cell(a0), ListCell) and ex.iter_concrete(a0, node) == []:
+                return ex.alloc(DictCell({}))       # OrderedDict([]) of a concrete empty list
             if isinstance(a0, VPtr) and isinstance(ex.cell(a0), ListCell) and ex.iter_concrete(a0, node) is None:
                 # OrderedDict(list of pairs of symbolic length): a dictionary object whose content is not modelled
                 ex.used_assumptions.add('A-BUILTIN: OrderedDict(pairs) is a dictionary object (content not modelled)')
